@@ -28,8 +28,8 @@ def main() -> int:
         pass
     meta = {
         "functions_encoded": RUNTIME_FILES + ["lib/c/bitproto.c", "lib/go/bitproto.go"],
-        "bounds": "F_evo: every single permitted step (append 1-2 fields / a nested extensible message; capacity +1, +3, x2) on every extensible node of the extensible F_shape schemas and four evolution-specific bases, and two-step chains (quick: seeded subset of chains); all values of the newest version",
-        "outside_claim": "evolutions the property does not permit; chains longer than 2; schemas outside the family",
+        "bounds": "F_evo: every single permitted step (append 1-2 fields / a nested extensible message; capacity +1, +3, x2) on every extensible node of the extensible F_shape schemas and four evolution-specific bases, and two-step chains (quick: seeded subset of chains; thorough: all two-step chains and a seeded sample of three-step chains); all values of the newest version",
+        "outside_claim": "evolutions the property does not permit; chains longer than 3; schemas outside the family",
         "explanation": "wire = specified encoding of the NEW version with symbolic leaves (prefixes are that version's constants); the OLD version's generated decoder runs symbolically on it; obligation: every leaf that exists in the old version equals the new leaf at the same path",
         "stubs": ["as C01 (Python)"],
     }
